@@ -7,5 +7,6 @@ package l4ssh
 //@ func (m *MatchSSH) Match(cx *layer4.Connection) (matched bool, err error)
 //@ requires wfm(cx)
 //@ safety C04
+//@ implements[C06] (m github.com/mholt/caddy-l4/layer4.ConnMatcher) Match
 //@ ensures[C14] err == nil ==> matched == (old(bytes(cx.buf[cx.offset:cx.offset+4])) == "SSH-")
 //@ ensures[C06] err != nil ==> !matched
